@@ -25,7 +25,7 @@ checks = {
    text="in every reachable state (forks, consolidation, pruning with scaled and real prune depth, reload, file boundaries) HashHeight / CheckHeader / GetHeader / PreviousHash / Hash / Header / GetHeaders are compared with the reference tree for every accepted header, every height and a set of ranges, plus unknown hashes",
    note=A_NOTE + "; scaled prune depth through the verif hook VerifClean/VerifLoad (checked equal to Clean at depth 10000)", tech=A_TECH),
  "C10": dict(engine="hdrmc", cat="model_checking", ref="DESIGN.md 3, 7 C10",
-   text="Clean at every position of every history (real Clean, scaled prune depths 2-4, base chains across file/prune boundaries): observables identical before/after, and all later verdicts, tips and lookups still agree with a reference model that is unaware of Clean",
+   text="Clean at every position of every history (real Clean, scaled prune depths 2-4, base chains across file/prune boundaries, chains grown by 4-5 headers at once with stale side branches that have live branches forking from them): observables identical before/after, and all later verdicts, tips and lookups still agree with a reference model that is unaware of Clean",
    note=A_NOTE, tech=A_TECH),
  "C11": dict(engine="hdrmc", cat="model_checking", ref="DESIGN.md 3, 7 C11",
    text="Save+Load at every position (up to 3 generations, scaled prune depth, base chains, empty storage): observables identical, and a differential continuation (same history with every reload replaced by a plain save) must give the same verdicts and tips",
@@ -34,7 +34,7 @@ checks = {
    text="for every Clean/Save in every history, every prefix of its recorded Write/Remove sequence is materialised as a storage image and loaded by a fresh repository: Load must succeed without panic, the chain must be linked accepted headers with at least the work of the last completed Save",
    note=A_NOTE + "; single-key writes atomic (as the property states)", tech="exhaustive crash-point enumeration over the real write sequence of every explored history (explicit-state search + fault injection at every storage call)"),
  "C17": dict(engine="hdrmc", cat="model_checking", ref="DESIGN.md 3, 7 C17",
-   text="all histories with mark/unmark of best-chain, side-branch, first-of-branch, unseen, unknown and already-marked hashes, followed by resubmission, competitors, Save+Load: tip = heaviest remaining accepted header, marked subtree never flagged in the best chain, verdicts per reference",
+   text="all histories with mark/unmark of best-chain, side-branch, first-of-branch, unseen, unknown and already-marked hashes, followed by resubmission, competitors, Save+Load, and marking after the repository was pruned (Clean/Load with depth 2-3 on a grown chain: lowest retained header, already pruned header): tip = heaviest remaining (retained) accepted header, marked subtree never flagged in the best chain, verdicts per reference",
    note=A_NOTE, tech=A_TECH),
  "C18": dict(engine="hdrmc", cat="model_checking", ref="DESIGN.md 3, 7 C18",
    text="in every state of a reduced exploration every accepted header x every transaction position x {with header, hash only}: valid proof must return the model's (height, in-best-chain); every single-element corruption (txid, each path element, index xor/shift/overflow/negative, duplicate list, path length, header, block hash, missing target) must be refused",
@@ -43,43 +43,43 @@ checks = {
    text="in every state: locator for max 1,2,3,10,50 and the verify-only locator are checked for membership, order, start at tip-1, length, duplicates; protocol-conformant peers on every accepted tip (and 1-2 headers ahead) are simulated and their first reply header is submitted to the real repository",
    note=A_NOTE + "; synthetic split table at heights 2/3 and the real mainnet table on base chains", tech=A_TECH),
  "C02": dict(engine="powenum", cat="exploration", ref="DESIGN.md 6, 7 C02",
-   text="three complete finite spaces through the real code: (1) Branch.Target on real Branch objects (root and fork branches straddling either median window) for all 3^6 order/tie patterns of the six headers that matter x 11 time-span classes (incl. more than 2^31 s apart) x bits patterns, compared with a reference implementation of the network's 144-block algorithm; (2) every exponent byte 0..255 x 11 mantissas through ProcessHeader and HandleHeadersMessage: no panic for any encoding, refusal whenever the hash exceeds a well-defined target (incl. zero targets); (3) both real mainnet fixture chains (incl. the 556767 split) accepted with difficulty checking on, and 15 single-field mutations of every header in a window refused with the right error class",
-   note="no mining: a header meeting a small target cannot be constructed, so the accept side rests on the real chain; negative/overflowing encodings only need to not crash; reference DAA/compact codec in /verif/ref written from the published node algorithm",
+   text="three complete finite spaces through the real code: (1) Branch.Target on real Branch objects (root and fork branches straddling either median window) for all 3^6 order/tie patterns of the six headers that matter x 11 time-span classes (incl. more than 2^31 s apart) x bits patterns, compared with a reference implementation of the network's 144-block algorithm; (2) every exponent byte 0..255 x 11 mantissas through ProcessHeader and HandleHeadersMessage: no panic for any encoding, refusal whenever the hash exceeds a well-defined target (incl. zero targets); (3) both real mainnet fixture chains (incl. the 556767 split) accepted with difficulty checking on, and 15 single-field mutations of every header in a window refused with the right error class; (4) a header with real proof of work (nonce mined once, recorded as a constant) on a fork that is not the most-work branch where the two branches require different bits: accepted iff its bits equal the target computed on its own branch",
+   note="apart from the one recorded mined nonce no header meeting a small target can be constructed, so the accept side rests on the real chain; negative/overflowing encodings only need to not crash; reference DAA/compact codec in /verif/ref written from the published node algorithm",
    tech="bounded-exhaustive enumeration of finite input spaces on the implementation against a reference (exhaustive: true)"),
  "C03": dict(engine="hdrmc+netmc", cat="model_checking", ref="DESIGN.md 3, 5, 7 C03",
-   text="repository part: all histories under a synthetic split table (required split at height 3, foreign splits at 2 and 3; forks created below and grown through the split heights; foreign split headers offered in every state with known and unknown parents): no header but the required one is ever held at the required height on any branch, foreign split headers always answered wrong-chain; plus the real mainnet table on the real 556000-556800 chain (BSV accepted, BCH / arbitrary headers refused at 556767 on the main chain and on forks started at 556765-556767, published constants, verify-only locator). Peer part: BFS over message histories (version/verack in every order and repetition, 8 kinds of headers replies, other letters) on a real node, full and verify-only: Verified()/IsReady() iff the first header of the first headers message after handshake completion is the BSV split header, otherwise disconnected",
+   text="repository part: all histories under a synthetic split table (required split at height 3, foreign splits at 2 and 3; forks created below and grown through the split heights; foreign split headers offered in every state with known and unknown parents): no header but the required one is ever held at the required height on any branch, foreign split headers always answered wrong-chain; plus the real mainnet table on the real 556000-556800 chain (BSV accepted, BCH / arbitrary headers refused at 556767 on the main chain and on forks started at 556765-556767, published constants, verify-only locator). Peer part: BFS over message histories (version/verack in every order and repetition, 8 kinds of headers replies, other letters) on a real node, full and verify-only, starting from a genesis-only repository and from one that already knows the first headers of the reply: Verified()/IsReady() iff the first header of the first headers message after handshake completion is the BSV split header, otherwise disconnected",
    note="peer part: node runs free on an in-memory connection (scheduling inside the node not enumerated; violations must reproduce 3/3); the BTC split header is not available offline, BTC is covered through the synthetic table and the constants check",
    tech="explicit-state model checking of the implementation (two engines: header repository BFS with reference model; message-history BFS on a real node)"),
  "C13": dict(engine="netmc", cat="model_checking", ref="DESIGN.md 5, 7 C13",
-   text="BFS over all message histories (30 letters: handshake messages in any order/repetition, headers of 8 kinds, addr, inv, tx, block, extended messages, getaddr, protoconf, reject, unknown commands...) from connect and from handshake-complete, for full nodes with and without tx manager and verify-only nodes registered with a NodeManager: while Verified() is false no ProcessHeader / peer-book Add,UpdateScore / tx-manager entry / processor call may be recorded by the spies, the node may only have sent version, verack, ping, pong, protoconf and one getheaders, and NodeManager requests must not be routed through it; verify-only nodes disconnect right after successful verification",
+   text="BFS over all message histories (30 letters: handshake messages in any order/repetition, headers of 8 kinds, addr, inv, tx, block, extended messages, getaddr, protoconf, reject, unknown commands...) from connect and from handshake-complete, for full nodes with and without tx manager and verify-only nodes registered with a NodeManager: while Verified() is false no ProcessHeader / peer-book Add,UpdateScore / tx-manager entry / processor call may be recorded by the spies, the node may only have sent version, verack, ping, pong, protoconf and one getheaders, and NodeManager requests must not be routed through it; verify-only nodes disconnect right after successful verification. Manager part: 1-3 connections registered with one NodeManager, each peer in one of 5 protocol states (silent, version only, handshake complete, handshake complete + headers, verified), every sequence of up to 3 (thorough 4) RequestHeaders / RequestBlock / SendTx calls: no getheaders beyond the connection's own verification request, no getdata, no tx and no block request may reach a connection whose peer is not verified",
    note="node runs free on an in-memory connection; oracles are spy observations (conclusive when they fire); state key = hooked node dump + spy counters + sent-command counts",
    tech="explicit-state model checking of the implementation (BFS over message histories, state de-duplication by hooked node dump)"),
  "C14": dict(engine="netmc", cat="model_checking", ref="DESIGN.md 5, 7 C14",
    text="from the ready state (with/without tx manager, with/without a requested block) and from handshake-complete: all sequences of up to 2/3 letters over the full 45-letter alphabet (known and unknown commands, payloads 0 B - 4 MiB, classic and extended framing, requested/unrequested blocks and txs, empty/full lists), extended to depth 13 along state-changing letters (repeated version, verack, protoconf, getaddr, inv, tx, headers); after every letter a ping must be answered with its nonce while the connection is up",
    note="a missing pong is judged after 4 s (normal latency is tens of microseconds) and only reported if it reproduces 3/3; node scheduling is free-running",
    tech="explicit-state model checking of the implementation (BFS over message histories with a ping barrier after every message)"),
- "C15": dict(engine="netmc", cat="exploration", ref="DESIGN.md 5, 7 C15",
-   text="complete structured enumeration of hostile byte streams (5 session stages x 19 base messages x frame/field mutations, extended headers with lengths up to 2^64-1 and no data, headers with 14 bits encodings x 4 timestamps, transactions with hostile counts in classic / extended / in-block form, hostile block transaction counts, block frame shorter than content; thorough adds (mutated, valid) pairs) delivered to real nodes in worker processes under an address-space limit; a dying worker identifies the case; Run must return after the peer closes; a healthy witness node sharing the repositories must keep answering",
+ "C15": dict(engine="netmc+schedmc", cat="exploration", ref="DESIGN.md 5, 7 C15",
+   text="complete structured enumeration of hostile byte streams (5 session stages x 19 base messages x frame/field mutations, extended headers with lengths up to 2^64-1 and no data, headers with 14 bits encodings x 4 timestamps, transactions with hostile counts in classic / extended / in-block form, hostile block transaction counts, block frame shorter than content; thorough adds (mutated, valid) pairs) delivered to real nodes in worker processes under an address-space limit; a dying worker identifies the case; Run must return after the peer closes; a healthy witness node sharing the repositories must keep answering. Concurrent part (schedmc): the real MessageChannel (outgoing queue of capacity 1-2) with 1-3 handler threads adding replies, the sender thread draining and 1-2 stops closing the queue, every interleaving up to preemption bound 2 (3): no panic (send on a closed channel aborts the process), no deadlock, every message whose Add succeeded is handed to the sender exactly once",
    note="crash = worker process death; 8 GB address-space limit on workers; findings rooted in the tokenized/pkg/wire dependency are listed in KNOWN_FINDINGS.txt",
-   tech="bounded-exhaustive enumeration of structured hostile inputs on the implementation in isolated worker processes"),
+   tech="bounded-exhaustive enumeration of structured hostile inputs on the implementation in isolated worker processes; stateless model checking (exhaustive schedule enumeration under a cooperative scheduler) of the outgoing queue against stop"),
  "C04": dict(engine="blkenum", cat="fault_enumeration", ref="DESIGN.md 6, 7 C04",
    text="complete Cartesian enumeration of block size (1-8/9) x relevant subset x corruption/fault kind x position through the real BlockDownloader.HandleBlock with a recording processor/store: confirmation-stage calls occur only for the requested header with full count and matching merkle root and no earlier fault; then exactly coinbase, the relevant occurrences in block order with proofs that verify (also recomputed by an independent merkle implementation), the txid record last; Complete is nil iff all of it happened",
    note="HandleBlock driven directly with a pre-filled closed channel (sequential); interleavings are C16; the node-side framing leg is covered by the C14/C15 checks",
    tech="bounded-exhaustive input and fault-position enumeration on the implementation against a reference"),
  "C05": dict(engine="schedmc", cat="model_checking", ref="DESIGN.md 4, 7 C05",
-   text="the real NodeManager.TriggerBlockSynchronize / runSynchronizeBlocks / synchronizeBlocks, the real BlockManager and BlockDownloader and the threads library, instrumented and run under the controlled scheduler on a real (native) headers.Repository, with a scripted block source and recording processor/store: chain length 1-3(4) x start height tip-2..tip+1 x processed sets (prefixes and a gap) x source failures (node drops, no node available twice, wrong block served) x events during synchronisation (extra trigger, new header + trigger, 1- and 2-deep reorganisation + trigger), every ordering at call granularity (preemption bound 0; bound 1 in the thorough tier). Oracles: no request below the start height, none for a block already recorded, processing ascending and at most once per block, every owed best-chain block processed at quiescence, no deadlock / endless polling",
+   text="the real NodeManager.TriggerBlockSynchronize / runSynchronizeBlocks / synchronizeBlocks, the real BlockManager and BlockDownloader and the threads library, instrumented and run under the controlled scheduler on a real (native) headers.Repository, with a scripted block source and recording processor/store: chain length 1-3(4) x start height tip-2..tip+1 x processed sets (prefixes and a gap) x source failures (node drops, no node available twice, wrong block served) x events during synchronisation (one and two extra triggers, new header + trigger, 1- and 2-deep reorganisation + trigger, a source that stays silent past the orphan check while the chain reorganises underneath), every ordering at call granularity (preemption bound 0; bound 1-2 in the thorough tier). Oracles: no request below the start height, none for a block already recorded, processing ascending, contiguous on one chain and at most once per block, every owed best-chain block processed at quiescence, no deadlock / endless polling",
    note="the property quantifies over histories, configurations and fault sequences, not schedules, so the block source answers inside RequestBlock (no node/handler threads); interleavings of delivery/cancel/stop are C16's subject; virtual time",
    tech="stateless model checking of the implementation under a hand-written cooperative scheduler: exhaustive enumeration of schedules at call granularity over an enumerated set of configurations / fault sequences"),
  "C06": dict(engine="schedmc", cat="model_checking", ref="DESIGN.md 4, 7 C06",
-   text="the real TxManager (AddTxID, AddTx, GetTxRequests, Run) instrumented by source rewriting and run under a controlled scheduler: for every pair of peer scripts over {announce, deliver} of length <= 2 (and 3 peers / 2 transactions / retry polls after a virtual-clock advance past the request timeout), all interleavings up to preemption bound 2 (1 for the retry-poll scenarios) are executed; every execution's call/return history must be linearizable (porcupine) against a map model of 'request from exactly one announcer per timeout window, retry per announcer after the timeout, never after delivery', and the processor / saver must have seen each delivered transaction exactly once",
-   note="interleavings at synchronisation operations (sequential consistency); preemption-bounded; virtual time; retry polls complete to bound 1 because one poll is ~520 scheduling points; the end-to-end inv->getdata->tx wire leg is exercised by the C13/C14 message-history checks, not here",
+   text="the real TxManager (AddTxID, AddTx, GetTxRequests, Run) instrumented by source rewriting and run under a controlled scheduler: for every pair of peer scripts over {announce, deliver} of length <= 2 (and 3 peers / 2 transactions / retry polls after a virtual-clock advance past the request timeout), all interleavings up to preemption bound 2 (1 for the retry-poll scenarios) are executed; every execution's call/return history, projected to each single transaction, must be linearizable (porcupine) against a map model of 'request from exactly one announcer per timeout window, retry per announcer after the timeout, never after delivery', and the processor / saver must have seen each delivered transaction exactly once",
+   note="interleavings at synchronisation operations (sequential consistency); preemption-bounded; virtual time; retry polls (incl. polls whose max is smaller than the eligible set of one bucket) complete to bound 1 because one poll is ~520 scheduling points; linearizability is per transaction because the statement is (a poll is not atomic across different transactions); the end-to-end inv->getdata->tx wire leg is exercised by the C13/C14 message-history checks, not here",
    tech="stateless model checking of the implementation: exhaustive enumeration of thread schedules under a hand-written cooperative scheduler (iterative preemption bounding, happens-before state caching), linearizability checking of every execution"),
  "C16": dict(engine="schedmc", cat="model_checking", ref="DESIGN.md 4, 7 C16",
-   text="the real BlockDownloader and BlockManager (and the threads library) instrumented by source rewriting and run under a controlled scheduler. Layer 1: downloader.Run + a node actor following the BlockRequestor/Canceller contract (block of 0-2 transactions, wrong hash, processor error, short stream, no delivery) + every subset of {manager Cancel, peer Stop, shutdown interrupt}; layer 3: BlockManager.Run with 1-2 queued requests, concurrency 1-3, scripted nodes that deliver / deliver slowly / drop / stay silent / are unavailable, abort and interrupt at any time. All interleavings up to preemption bound 2 (manager scenarios with abort/interrupt: bound 0-1). Oracles: no deadlock (the scheduler knows exactly who waits on what), no unbounded polling (step horizon), Run returns, exactly one terminal signal per request, downloader list empty at quiescence, completion only after a recorded successful download, no double processing",
-   note="layer 2 of the design (real BitcoinNode.RequestBlock/CancelBlockRequest/handleBlock under the scheduler) is replaced by the node-contract actor, whose 'registered but handler never started' case reproduces the real node's window; runs that end only through a virtual timeout are listed as outcomes (via-timeout), not alarmed",
+   text="the real BlockDownloader and BlockManager (and the threads library) instrumented by source rewriting and run under a controlled scheduler. Layer 1: downloader.Run + a node actor following the BlockRequestor/Canceller contract (block of 0-2 transactions, wrong hash, processor error, short stream, no delivery) + every subset of {manager Cancel, peer Stop, shutdown interrupt}; layer 2: the real BitcoinNode.RequestBlock / CancelBlockRequest / handleBlock and stop path (hooks VerifOpenOutgoing, VerifSetInterrupt, VerifHandleBlock, VerifStopBlock) against the real downloader with the same disturbances; layer 3: BlockManager.Run with 1-2 queued requests, concurrency 1-3, scripted nodes that deliver / deliver slowly / drop / drop while the handler is busy / stay silent / are unavailable, abort and interrupt at any time, with the number of registered downloads of the block checked against the configured limit at every new request. All interleavings up to preemption bound 2 (manager scenarios with abort/interrupt: bound 0-1). Oracles: no deadlock (the scheduler knows exactly who waits on what), no unbounded polling (step horizon), Run returns, exactly one terminal signal per request, downloader list empty at quiescence, completion only after a recorded successful download, no double processing",
+   note="the node's connection threads are not run under the scheduler (layer 2 drives the node's block functions directly; VerifStopBlock copies the lines of run that follow the threads' stop); runs that end only through a virtual timeout are listed as outcomes (via-timeout), not alarmed",
    tech="stateless model checking of the implementation: exhaustive enumeration of thread schedules under a hand-written cooperative scheduler (iterative preemption bounding, happens-before state caching)"),
  "C20": dict(engine="peermc+schedmc", cat="model_checking", ref="DESIGN.md 6, 7 C20",
-   text="BFS over all histories of Add/UpdateScore/UpdateTime/Save/Load/Clear (2-5 addresses incl. empty, 300-byte, non-ASCII, IPv6; deltas +-1,+-5) on the real StoragePeerRepository against a map model, all 36 Get(min,max) ranges and Count compared in every state; every prefix of every saved file reached is loaded; 17 structured arbitrary file contents (bad version, negative / huge counts and lengths, duplicates, garbage) are loaded in worker subprocesses under an address-space limit; concurrent callers: 2-3 threads x <=3 operations on colliding addresses under the controlled scheduler (all interleavings to preemption bound 2), every history linearizable (porcupine) against the map model",
+   text="BFS over all histories of Add/UpdateScore/UpdateTime/Save/Load/Clear (2-5 addresses incl. empty, 300-byte, non-ASCII, IPv6; deltas +-1,+-5) on the real StoragePeerRepository against a map model, all 36 Get(min,max) ranges (all issued before any result is inspected, so a result must stay intact while later queries run) and Count compared in every state; every prefix of every saved file reached is loaded; 17 structured arbitrary file contents (bad version, negative / huge counts and lengths, duplicates, garbage) are loaded in worker subprocesses under an address-space limit; concurrent callers: 2-3 threads x <=3 operations on colliding addresses under the controlled scheduler (all interleavings to preemption bound 2), every history linearizable (porcupine) against the map model, with the membership of a query result read after a yield",
    note="last-seen times are wall-clock and only checked to lie inside the call window; atomic single-key storage",
    tech="explicit-state model checking of the implementation (BFS over operation histories, model-state de-duplication) plus exhaustive file-prefix enumeration"),
 }
